@@ -23,6 +23,12 @@ type Func struct {
 	Info *types.Info
 	G    *cfg.CFG
 
+	// Expand, when set, is asked for the facts that a fact implies beyond its own
+	// syntax: what a helper's success (or a predicate's answer) establishes, expressed in
+	// this function's terms. The results are decomposed like ordinary conditions.
+	Expand    func(f *Func, fa Fact) []Fact
+	expanding int
+
 	idom    []int32 // immediate dominator by block index; -1 = none
 	live    []bool
 	where   map[ast.Node]loc // every node stored in a block
@@ -359,6 +365,14 @@ func (f *Func) decompose(e ast.Expr, truth bool, out []Fact, depth int) []Fact {
 	}
 	e = ast.Unparen(e)
 	out = append(out, Fact{e, truth})
+	if f.Expand != nil && f.expanding < 3 && depth < 6 {
+		f.expanding++
+		extra := f.Expand(f, Fact{e, truth})
+		f.expanding--
+		for _, x := range extra {
+			out = f.decompose(x.Expr, x.Truth, out, depth+1)
+		}
+	}
 	switch x := e.(type) {
 	case *ast.UnaryExpr:
 		if x.Op == token.NOT {
@@ -747,3 +761,39 @@ func (f *Func) SameResolved(a, b ast.Expr) bool {
 	}
 	return false
 }
+
+// DefOf returns the defining expression of a local that is assigned exactly once by a
+// one-to-one assignment (x := e), or nil.
+func (f *Func) DefOf(obj types.Object) ast.Expr {
+	if obj == nil || f.assigns[obj] != 1 {
+		return nil
+	}
+	return f.defOf(obj)
+}
+
+// TupleDefOf: obj is assigned exactly once, by `a, b, obj := call(...)` (or the comma-ok
+// forms `v, obj := m[k]`, `v, obj := x.(T)`); it returns the right-hand side and obj's
+// position among the left-hand sides.
+func (f *Func) TupleDefOf(obj types.Object) (ast.Expr, int, bool) {
+	if obj == nil || f.assigns[obj] != 1 {
+		return nil, 0, false
+	}
+	var rhs ast.Expr
+	idx := -1
+	ast.Inspect(f.Body, func(n ast.Node) bool {
+		s, ok := n.(*ast.AssignStmt)
+		if !ok || len(s.Rhs) != 1 || len(s.Lhs) < 2 {
+			return true
+		}
+		for i, l := range s.Lhs {
+			if id, ok := l.(*ast.Ident); ok && f.Info.ObjectOf(id) == obj {
+				rhs, idx = s.Rhs[0], i
+			}
+		}
+		return true
+	})
+	return rhs, idx, rhs != nil
+}
+
+// Decompose returns the facts implied by e having the given truth value.
+func (f *Func) Decompose(e ast.Expr, truth bool) []Fact { return f.decompose(e, truth, nil, 0) }
